@@ -238,6 +238,14 @@ func (h *HttpServer) installStickyOnRequestNoCtx(r *http.Request, auth *AuthCont
 	// in cleanup.ReleaseLock. Same-session concurrent calls serialize
 	// here; different-session calls run in parallel.
 	entry.lock.Lock()
+	// The call that held the lock while this request waited for it may have
+	// closed or deleted the session. The entry pointer resolved above is then
+	// stale: resuming it would run the handler on a state whose Close has
+	// already been invoked. Resolve again now that the lock is held.
+	if h.stickyRegistry.get(sid, principalKeyFromAuth(auth)) != entry {
+		entry.lock.Unlock()
+		return cleanup, &SessionLostError{Reason: sessionLostNotFound}
+	}
 	sink.installResumed(entry, sid)
 	cleanup.entry = entry
 	_ = _expiresAt
